@@ -20,3 +20,42 @@ Definition val_close (tbl : list (string * uval)) (u : string) (fn fd : Z) : boo
 Fixpoint bad_bools_from (n : nat) (l : list bool) : list nat :=
   match l with [] => [] | b :: r => if b then bad_bools_from (S n) r else n :: bad_bools_from (S n) r end.
 Definition bad_bools (l : list bool) : list nat := bad_bools_from 0 l.
+
+(* ---------------------------------------------------------------- binary64 instance of the conversion chain (Python floats) *)
+From Coq Require Import PrimFloat.
+From RV Require Import Common.Num Common.FloatNum.
+Open Scope string_scope.
+
+(* CPython evaluates `x**2`, `x**3` with libm pow(): its values come in as a table (x, pow x) *)
+Definition ptab (tab : list (float * float)) (x : float) : float :=
+  match find (fun p => same (fst p) x) tab with Some p => snd p | None => nan end.
+
+(* every table entry as Python evaluates it: G_SI, lengths, times, masses (source order) *)
+Definition tables_f_all (t2 t3 : list (float * float)) : list float :=
+  G_SI_f :: map snd lengths_SI_f ++ map snd (times_SI_f (ptab t3)) ++ map snd (masses_SI_f).
+
+Definition pairs {A} (l : list A) : list (A * A) := list_prod l l.
+
+(* all ordered pairs (old, new); xs supplies one argument per pair, in enumeration order *)
+Definition mass_all (xs Ms : list float) : list float :=
+  map (fun c => convert_mass_pw FNum (fst c) (fst (snd c)) (snd (snd c))) (combine xs (pairs Ms)).
+Definition length_all (xs Ls : list float) : list float :=
+  map (fun c => convert_length_pw FNum (fst c) (fst (snd c)) (snd (snd c))) (combine xs (pairs Ls)).
+(* ((lo, ln), (to, tn)) *)
+Definition vel_all (xs Ls Ts : list float) : list float :=
+  map (fun c => let '(x, ((lo, ln), (to, tn))) := c in convert_vel_pw FNum x lo ln to tn) (combine xs (list_prod (pairs Ls) (pairs Ts))).
+Definition acc_all (t2 : list (float * float)) (xs Ls Ts : list float) : list float :=
+  map (fun c => let '(x, ((lo, ln), (to, tn))) := c in convert_acc_pw FNum (ptab t2) x lo ln to tn) (combine xs (list_prod (pairs Ls) (pairs Ts))).
+(* (l, (t, m)) *)
+Definition G_all (t2 t3 : list (float * float)) (g : float) (Ls Ts Ms : list float) : list float :=
+  map (fun c => let '(l, (t, m)) := c in convert_G_pw FNum (ptab t2) (ptab t3) g l t m) (list_prod Ls (list_prod Ts Ms)).
+
+(* units_convert_particle on the members in the order of Gen.Units.particle_conversion *)
+Definition conv_member (t2 : list (float * float)) (fn : string) (x lo ln to tn mo mn : float) : float :=
+  if String.eqb fn "convert_mass" then convert_mass_pw FNum x mo mn
+  else if String.eqb fn "convert_length" then convert_length_pw FNum x lo ln
+  else if String.eqb fn "convert_vel" then convert_vel_pw FNum x lo ln to tn
+  else if String.eqb fn "convert_acc" then convert_acc_pw FNum (ptab t2) x lo ln to tn
+  else nan.
+Definition conv_particle (t2 : list (float * float)) (vals : list float) (lo ln to tn mo mn : float) : list float :=
+  map (fun c => conv_member t2 (snd (fst c)) (snd c) lo ln to tn mo mn) (combine particle_conversion vals).
